@@ -493,7 +493,7 @@ def oracle_c09(rec, quiescent):
             rfin = [str(a[0]) for (n, a) in signals(rec, rcv) if n == 'recv_bundle_finished']
             sent_ids = [str(x) for x in range(1, len(rec.queued[snd]) + 1)]
             for bid in started:
-                if bid in rfin and finished.get(bid) != 'success':
+                if bid in rfin and finished.get(bid) != 'success' and not str(finished.get(bid)).startswith('refused'):
                     fails.append(('C09 / transfer completed at the receiver but never acknowledged to the sender',
                                   '%s id %s result %s' % (snd, bid, finished.get(bid))))
                 if bid not in rfin and bid not in finished:
